@@ -788,11 +788,11 @@ int cif_container_get_category_loop(
     if (temp == NULL) {
         SET_RESULT(CIF_MEMORY_ERROR);
     } else {
+        temp->names = NULL;
         temp->category = cif_u_strdup(category);
         if (temp->category == NULL) {
             SET_RESULT(CIF_MEMORY_ERROR);
         } else {
-            temp->names = NULL;
             if ((sqlite3_bind_int64(cif->get_cat_loop_stmt, 1, container->id) == SQLITE_OK)
                     && (sqlite3_bind_text16(cif->get_cat_loop_stmt, 2, category, -1, SQLITE_STATIC) == SQLITE_OK)) {
                 STEP_HANDLING;
